@@ -773,3 +773,38 @@ func TestVerif_C09_RestartStorm(t *testing.T) {
 		}
 	})
 }
+
+// TestVerif_C09_MDNSSockets: the agent opens the mDNS sockets itself (at construction, before any gathering); on
+// every outcome of setting mDNS up — one family missing on the host, the multicast groups cannot be joined — they
+// must be closed again at the latest when Close has returned.
+func TestVerif_C09_MDNSSockets(t *testing.T) {
+	st := vfNewStats(t)
+	lf := logging.NewDefaultLoggerFactory()
+	lf.DefaultLogLevel = logging.LogLevelDisabled
+	rapid.Check(t, func(rt *rapid.T) {
+		mode := rapid.SampledFrom([]MulticastDNSMode{MulticastDNSModeQueryOnly, MulticastDNSModeQueryAndGather}).Draw(rt, "mode")
+		noV6 := rapid.Bool().Draw(rt, "hostWithoutIPv6")
+		nts := rapid.SampledFrom([][]NetworkType{nil, {NetworkTypeUDP4}, {NetworkTypeUDP4, NetworkTypeUDP6}, {NetworkTypeUDP6}}).Draw(rt, "networkTypes")
+		fn := newFakeNet([]fnIface{{Name: "eth0", Up: true, Addrs: []string{"10.0.0.1"}}})
+		fn.noIPv6 = noV6
+		opts := []AgentOption{WithNet(fn), WithLoggerFactory(lf), WithMulticastDNSMode(mode), WithCandidateTypes([]CandidateType{CandidateTypeHost})}
+		if nts != nil {
+			opts = append(opts, WithNetworkTypes(nts))
+		}
+		a, err := NewAgentWithOptions(opts...)
+		desc := fmt.Sprintf("mode=%v hostWithoutIPv6=%v networkTypes=%v", mode, noV6, nts)
+		hadConn, effMode := false, MulticastDNSMode(0)
+		if err == nil {
+			hadConn, effMode = a.mDNSConn != nil, a.mDNSMode
+			_ = a.Close()
+		}
+		open, _, total := fn.tally()
+		st.Record(vfHashStr(desc), noV6 || total > 0, fmt.Sprintf("no-ipv6:%v", noV6))
+		if st.WantSample() {
+			st.Sample(func() string { return fmt.Sprintf("%s: NewAgent err=%v, %d socket(s) opened", desc, err, total) })
+		}
+		if len(open) != 0 {
+			st.Fail(rt, "C09/leak/mdns-socket", "%d of %d socket(s) the agent opened for mDNS still open after construction (err=%v, mDNS server running=%v, effective mode %v) and Close: %v (%s)", len(open), total, err, hadConn, effMode, open, desc)
+		}
+	})
+}
